@@ -67,7 +67,10 @@ def rules(model: Model, tier: str) -> List[RuleResult]:
     from ..rules import c01_layout as _c01l
     LSN = RuleResult(PROP, "LS-N", "inner linear solve: the normal-equation fallback applies one adjoint map to operator and right-hand side (A^H A x = A^H b)", min_instances=3)
     _c01l.check_normal_equations(model, LSN)
-    return [R1, R2, R3, R4, R5, R6, H, S, *_hy, ADJ, STL, HF, *_sub, LSN]
+    from .c01 import _zero_rhs_shortcut as _zrs
+    ZS = RuleResult(PROP, "C02-Z", "the zero right-hand-side shortcut is taken only for an exactly zero right-hand side (a tiny non-zero one would get X = 0 and zero gradients)", min_instances=1)
+    _zrs(model, ZS)
+    return [R1, R2, R3, R4, R5, R6, H, S, *_hy, ADJ, STL, HF, *_sub, LSN, ZS]
 
 
 def _backward_group_order(fc, R6: RuleResult):
